@@ -627,6 +627,53 @@ func octopusCases(prefix string) []cases.ScanCase {
 	return out
 }
 
+// multiRootCases: several ROOT arguments (commits given by hash) on separate histories of different length -- the
+// longest one named first, in the middle, last -- alone, and next to a reference selection that walks a short branch:
+// every ROOT is walked, whatever its position on the command line.
+func multiRootCases(prefix string) []cases.ScanCase {
+	var out []cases.ScanCase
+	for _, k := range []int{2, 3, 4} {
+		for pos := 0; pos < k; pos++ {
+			for _, withRefs := range []bool{false, true} {
+				var g model.Graph
+				names := map[int][]byte{1: []byte("f")}
+				g.Blobs = []int{3}
+				g.Trees = [][]model.Entry{{{K: "file", To: 1, N: 1, NL: 1}}}
+				var tips []int
+				for h := 0; h < k; h++ { // history h: its own root commit, then a chain
+					n := 1 + h%2
+					if h == pos {
+						n = 7
+					}
+					g.Commits = append(g.Commits, model.Commit{Tree: 1, Parents: []int{}, Size: 200 + 10*h})
+					for i := 1; i < n; i++ {
+						g.Commits = append(g.Commits, model.Commit{Tree: 1, Parents: []int{len(g.Commits)}})
+					}
+					tips = append(tips, len(g.Commits))
+				}
+				// a branch on a history of its own (two commits)
+				g.Commits = append(g.Commits, model.Commit{Tree: 1, Parents: []int{}, Size: 333})
+				g.Commits = append(g.Commits, model.Commit{Tree: 1, Parents: []int{len(g.Commits)}})
+				branch := len(g.Commits)
+				g.Normalize()
+				roots := []cases.RootSpec{{O: model.Oid{K: "c", I: branch}, Walk: withRefs, IsRef: true, Name: "refs/heads/short", Kind: "plain"}}
+				var args []string
+				if withRefs {
+					args = append(args, "--branches")
+				}
+				for _, t := range tips {
+					e := fmt.Sprintf("{hex:c%d}", t)
+					args = append(args, e)
+					roots = append(roots, cases.RootSpec{O: model.Oid{K: "c", I: t}, Walk: true, IsRef: false, Name: e, Kind: rootKindOf(e)})
+				}
+				out = append(out, cases.ScanCase{ID: fmt.Sprintf("%s-multiroot%d-%d-%v", prefix, k, pos, withRefs), G: g, Names: names, Style: "full",
+					Family: "multiroot", Roots: roots, Args: args})
+			}
+		}
+	}
+	return out
+}
+
 // rootKindCases: references (and ROOT arguments) that point directly at objects of every kind -- a blob no tree
 // contains, a blob that is also in a tree, a tree nothing else reaches, the root tree of a commit, annotated
 // tags of a blob / tree / commit -- one feature per repository and all of them together, walked and unwalked.
